@@ -265,7 +265,9 @@ def _array_value(name, d, shape):
     if d["kind"] == "list" and d.get("elements") == "range":
         return range(d["base"], d["base"] + n)
     if d["kind"] == "list":
-        return [f"{name}.{i}" for i in range(n)]
+        return [f"{name}.{n - 1 - i if d.get('descending') else i}" for i in range(n)]
+    if d.get("descending"):  # values fall along the axis: nothing may re-sort what the caller gave
+        return (d["base"] + n - 1 - np.arange(n)).reshape(shape)
     return (d["base"] + np.arange(n)).reshape(shape)
 
 
@@ -351,6 +353,22 @@ def build_inputs(w):
             shape = tuple(w["indices"][a] for a in d["axes"])
             out[name] = _array_value(name, d, shape)
     return out
+
+
+def n_elements(w):
+    """Stored elements a full run of the workload produces (drives the per-case yield budget)."""
+    n = 0
+    for fd in w["functions"]:
+        ms = fd.get("mapspec")
+        if not ms:
+            n += len(fd["outputs"])
+            continue
+        axes = [a.strip() for a in ms.split("->")[1].split("]")[0].split("[")[1].split(",")]
+        size, ishape = 1, list(fd.get("out_shape") or [])
+        for a in axes:
+            size *= w["indices"][a] if a in w["indices"] else (ishape.pop(0) if ishape else 1)
+        n += size * len(fd["outputs"])
+    return n
 
 
 def internal_shapes(w):
